@@ -437,3 +437,37 @@ def features(f: flow.Flow) -> tuple:
         if not f.messages:  # type: ignore
             ft.append("nomsg")
     return tuple(ft)
+
+
+# ------------------------------------------------------------------------------------------- attribute snapshot
+
+_SNAP_EXCLUDE = {"live", "_resume_event", "state"}  # not serialised by design: liveness, resume event, socket state
+
+
+def attr_snapshot(o, _depth=0):
+    """Deep snapshot of an object's *attributes* (vars / dataclass fields), independent of get_state()/set_state().
+
+    Used as a second oracle for persistence round trips: snapshot(original) == snapshot(loaded).  Tuples become lists,
+    certificates their PEM, proxy modes their spec, enums their value, Headers their field list; `live`, the resume event
+    and the connection `state` are excluded (mitmproxy documents them as not persisted)."""
+    import enum
+
+    if o is None or isinstance(o, (bool, int, float, str, bytes)):
+        return o
+    if _depth > 12:
+        return repr(o)
+    if isinstance(o, enum.Enum):
+        return o.value
+    if isinstance(o, (list, tuple)):
+        return [attr_snapshot(x, _depth + 1) for x in o]
+    if isinstance(o, dict):
+        return {k: attr_snapshot(v, _depth + 1) for k, v in o.items()}
+    if isinstance(o, certs.Cert):
+        return {"__cert__": o.to_pem()}
+    if isinstance(o, ProxyMode):
+        return {"__mode__": o.full_spec}
+    if isinstance(o, http.Headers):
+        return {"__headers__": [list(x) for x in o.fields]}
+    if hasattr(o, "__dict__"):
+        return {"__class__": type(o).__name__, **{k: attr_snapshot(v, _depth + 1) for k, v in vars(o).items() if k not in _SNAP_EXCLUDE}}
+    return repr(o)
